@@ -14,6 +14,7 @@ the witnesses showing that the hypotheses are necessary and that libavoid's esti
 import AdaptaVerif.Lemmas.AStarGraph
 import AdaptaVerif.Lemmas.AStarWitness
 import AdaptaVerif.Lemmas.AStarBridge
+import AdaptaVerif.Lemmas.AStarEstimate
 namespace AdaptaVerif.Props.C05AStar
 open AdaptaVerif.Model.AStar AdaptaVerif.Lemmas.AStarSpec
 open AdaptaVerif.Lemmas.AStarOpt (bonusOf)
@@ -112,6 +113,57 @@ theorem estimator_inconsistent_doubling_back :
     AdaptaVerif.Model.Bends.estimatedCostSpecific (some ⟨0, 0⟩) ⟨1, 0⟩ ⟨-5, 0⟩ 8 10 = some 46 ∧
     AdaptaVerif.Model.Bends.estimatedCostSpecific (some ⟨1, 0⟩) ⟨-1, 0⟩ ⟨-5, 0⟩ 8 10 = some 4 ∧
     costPts { (default : Graph) with segPen := 10 } 2 (some ⟨0, 0⟩) ⟨1, 0⟩ ⟨-1, 0⟩ = 22 := by
+  decide +kernel
+
+/-- **The turn-pruning rule as coded loses the optimum — unrestricted target** (known finding
+    C05-dirs-src-pruning, harness case `c05 --seed 4 --tier thorough --mode dirs2 --only 10213`: source
+    (22,4) restricted, target (23.5,27) visible in all four directions).  On libavoid's own graph of that
+    scene the model search — which the correspondence shows to be vertex-for-vertex the C++ route —
+    returns a route of full cost (every hop's length + bend penalties) 61.5, although the graph contains
+    the path `p` of full cost 60.5; `p` makes a turn the rule skips, and it is what the same search
+    returns once the rule is switched off. -/
+theorem pruning_loses_optimum_unrestricted_target :
+    let g := Lemmas.AStarWitness.lossyGraph
+    let p := [1, 148, 6, 124, 125, 136, 126, 127, 137, 128, 134, 129, 130, 143, 0]
+    g.run.chain = [1, 148, 168, 158, 11, 15, 159, 160, 167, 161, 165, 162, 163, 0] ∧
+    fullCost g none g.run.chain = 123 / 2 ∧
+    isGraphPath g p = true ∧ p.head? = some g.src ∧ p.getLast? = some g.tar ∧
+    fullCost g none p = 121 / 2 ∧ usesPrunedTurn g none p = true ∧
+    ({ g with prune := false }).run.chain = p := by
+  decide +kernel
+
+/-- **… and with a direction-restricted target** (known finding C05-dirs-dst-search, harness case
+    `c05 --seed 1 --tier quick --mode dirs2 --only 2401`) even in the search's own cost: with the rule the
+    search returns g = 612, the path 1→26→13→32→33→0 of the un-pruned state graph costs 412, both
+    entering the target from the same cost target (same uncharged last hop). -/
+theorem pruning_loses_optimum_restricted_target :
+    let g := Lemmas.AStarWitness.dstGraph
+    g.run.cost = some 612 ∧ g.run.chain = [1, 26, 13, 14, 33, 0] ∧
+    ({ g with prune := false }).run.cost = some 412 ∧
+    ({ g with prune := false }).run.chain = [1, 26, 13, 32, 33, 0] ∧
+    isGraphPath g [1, 26, 13, 32, 33, 0] = true ∧ usesPrunedTurn g none [1, 26, 13, 32, 33, 0] = true := by
+  decide +kernel
+
+/-- **Where the estimator IS consistent with `cost()`**: on every hop curr → next with a single heading
+    `nd` (axis-parallel, positive length), taken after arriving at `curr` with heading `cd`, that does not
+    double back and does not end at the cost target, the estimate at `curr` is at most hop length +
+    bend penalty of the hop + the estimate at `next` — for all rational points, all direction sets of
+    the cost target, all positive penalties.  Together with the two witnesses above this is the exact
+    picture: the estimator (admissible w.r.t. geometric approach paths, `Props.C05.estimate_le`) is
+    consistent with the search's own step cost except on edges into a cost target and on U-turns. -/
+theorem estimator_consistent_off_cost_target (last curr next tar : Pt)
+    (cd nd : AdaptaVerif.Spec.OrthPath.Dir) (dirs : Nat) (pen : Rat) (hpen : 0 < pen)
+    (hcd : AdaptaVerif.Model.Bends.orthogonalDirection last curr = cd.mask)
+    (hnd : AdaptaVerif.Model.Bends.orthogonalDirection curr next = nd.mask)
+    (hnr : nd ≠ cd.rev) (hnt : next ≠ tar) :
+    ∃ e1 e2, AdaptaVerif.Model.Bends.estimatedCostSpecific (some last) curr tar dirs pen = some e1 ∧
+      AdaptaVerif.Model.Bends.estimatedCostSpecific (some curr) next tar dirs pen = some e2 ∧
+      e1 ≤ AdaptaVerif.Model.Bends.manhattanDist curr next + (if nd = cd then 0 else pen) + e2 :=
+  Lemmas.AStarEstimate.estimate_consistent last curr next tar cd nd dirs pen hpen hcd hnd hnr hnt
+
+example : AdaptaVerif.Model.Bends.orthogonalDirection ⟨0, 0⟩ ⟨1, 0⟩ = AdaptaVerif.Spec.OrthPath.Dir.E.mask ∧
+    AdaptaVerif.Model.Bends.orthogonalDirection ⟨1, 0⟩ ⟨1, 2⟩ = AdaptaVerif.Spec.OrthPath.Dir.S.mask ∧
+    AdaptaVerif.Spec.OrthPath.Dir.S ≠ AdaptaVerif.Spec.OrthPath.Dir.E.rev ∧ (⟨1, 2⟩ : Pt) ≠ ⟨3, 4⟩ := by
   decide +kernel
 
 /-! ### tie to the source: kernels regenerated from makepath.cpp / graph.cpp on every run -/
